@@ -41,8 +41,7 @@ LAYER_NAME = {"frag": "fragswarm", "mbapp": "mbapp"}
 
 TIERS = {
     "quick": dict(mc=["Frag_frag_cap2_nc.cfg", "Frag_mbapp_cap2_nc.cfg"], gen="FragGen_quick.cfg", sim=700, parts=1, depth=120),
-    "thorough": dict(mc=["Frag_frag_cap2.cfg", "Frag_mbapp_cap2.cfg", "Frag_frag_cap1.cfg", "Frag_mbapp_cap1.cfg",
-                         "Frag_frag_deep.cfg", "Frag_mbapp_deep.cfg"],
+    "thorough": dict(mc=["Frag_frag_cap2.cfg", "Frag_mbapp_cap2.cfg", "Frag_frag_deep.cfg", "Frag_mbapp_deep.cfg"],
                      gen="FragGen_thorough.cfg", sim=2400, parts=4, depth=500,
                      extra=("FragGen_quick.cfg", 3000)),
 }
@@ -164,6 +163,8 @@ def check(pid, tier, replay=None):
         b.setdefault("id", 1)
         behs = [b]
     stats, violations = run_pipeline(tier, behs)
+    if not replay and stats["multi"] < 20:
+        raise core.Inconclusive("vacuous run: only %d schedules reassembled a multi-fragment message" % stats["multi"])
     mine = []
     for key, what, payload in violations:
         mine.append(core.Violation(pid, key, what, core.write_replay(pid, key, payload)))
